@@ -323,10 +323,14 @@ func (c ColLowCardinality[T]) Rows() int {
 func (c *ColLowCardinality[T]) Prepare() error {
 	// Allocate keys slice.
 	c.keys = append(c.keys[:0], make([]int, len(c.Values))...)
+	// Dictionary is rebuilt from Values on every call, because keys are
+	// assigned starting from zero.
 	if c.kv == nil {
 		c.kv = map[T]int{}
-		c.index.Reset()
+	} else {
+		clear(c.kv)
 	}
+	c.index.Reset()
 
 	// Fill keys with value indexes.
 	var last int
